@@ -213,16 +213,8 @@ func (a *pwaligner) fillMatrix_SW() (err error) {
 			a.maxj = j
 		}
 
-		if j > 0 {
-			a.maxa[j] = a.matrix[0][j]
-			if a.trace[0][j-1] == ALIGN_LEFT {
-				a.maxa[j] += a.gapextend
-			} else {
-				a.maxa[j] += a.gapopen
-			}
-		} else {
-			a.maxa[j] = a.matrix[0][j] + a.gapopen
-		}
+		// Best score of a gap opened just below this cell
+		a.maxa[j] = a.matrix[0][j] + a.gapopen
 	}
 
 	// First column
